@@ -734,6 +734,61 @@ theorem C15_manager_error_path_releases {n : Nat} {s : State} (h : Reachable n s
   · split at hs <;> try contradiction
     injection hs with hs; subst hs; simp [setPc, setEnt, setObj, hlt]
 
+/-! ### the lock users (CheckIntegrity, V2CheckIntegrity, …) as actions of the system
+
+A lock user is: acquire (`lockFresh`, or `lockWait` … `recv`), run a body that does not touch the
+locker, release on every return path (`userAfterAcquire`, `Model/Lock.lean`; the table `lockUsers`
+is tied to the source tree by the driver).  Its steps are steps of the transition system, so every
+theorem above - in particular `C15_no_leak` and `C15_relock_immediate` - covers histories with any
+number of users on any paths. -/
+
+theorem C15_user_releases_on_every_path {n : Nat} {s : State} (h : Reachable n s) (t i : Nat) (p : UserPath)
+    (ht : s.pcs[t]? = some (.holding i)) :
+    ∃ s', userAfterAcquire s t p = .ok s' ∧ s'.pcs[t]? = some .idle ∧ holders s' i = 0 ∧ Reachable n s' := by
+  obtain ⟨s', hs, h1, h2, h3⟩ := C15_manager_error_path_releases h t i ht
+  refine ⟨s', ?_, h1, h2, h3⟩
+  simpa [userAfterAcquire, mgrAfterAcquire] using hs
+
+/-- A user alone on a free contract (any return path): afterwards the contract has no entry in the
+locker's table and is lockable immediately - what the harness probes after every return. -/
+theorem C15_user_no_leak {n : Nat} {s : State} (h : Reachable n s) (t i : Nat) (p : UserPath)
+    (hpc : s.pcs[t]? = some .idle) (hfree : holders s i + waiters s i + cancelling s i = 0) :
+    ∃ s1 s2, step s (lockAct s t i) = .ok s1 ∧ userAfterAcquire s1 t p = .ok s2 ∧
+      s2.ent i = none ∧ s2.pcs[t]? = some .idle ∧
+      ∃ s3, step s2 (lockAct s2 t i) = .ok s3 ∧ s3.pcs[t]? = some (.holding i) := by
+  obtain ⟨s1, hs1, hp1⟩ := C15_relock_immediate_per_contract h t i hpc hfree
+  have r1 := Reachable.step h hs1
+  obtain ⟨s2, hs2, hp2, hh2, r2⟩ := C15_user_releases_on_every_path r1 t i p hp1
+  -- after the release nobody refers to the contract: counts of `s1` are those of `s` plus the holder
+  have hent : s.ent i = none := (C15_entry_absent_iff_unreferenced h i).2 hfree
+  have hlt : t < s.pcs.length := by
+    have := hpc; rw [List.getElem?_eq_some_iff] at this; exact this.1
+  have hs1' : s1 = setPc (setEnt ({ setObj s i (s.next i) { n := 1, tokens := 0 } with
+      next := fun j => if j = i then s.next i + 1 else s.next j }) i (some (s.next i))) t (.holding i) := by
+    simp only [lockAct, hent, step, hpc] at hs1
+    injection hs1 with hs1; exact hs1.symm
+  have hfree2 : holders s2 i + waiters s2 i + cancelling s2 i = 0 := by
+    have e1 : s1.pcs = s.pcs.set t (.holding i) := by rw [hs1']; simp [setPc, setEnt, setObj]
+    have hpc1 : s1.pcs[t]? = some (.holding i) := hp1
+    have hpc1' : (s.pcs.set t (.holding i))[t]? = some (.holding i) := by rw [← e1]; exact hp1
+    have e2 : s2.pcs = (s.pcs.set t (.holding i)).set t .idle := by
+      rw [← e1]
+      simp only [userAfterAcquire, step, hpc1] at hs2
+      split at hs2 <;> try contradiction
+      split at hs2
+      · injection hs2 with hs2; subst hs2; simp [setPc, setEnt, setObj]
+      · split at hs2 <;> try contradiction
+        injection hs2 with hs2; subst hs2; simp [setPc, setObj]
+    have e3 : s2.pcs = s.pcs.set t .idle := by rw [e2]; simp
+    obtain ⟨_, cW, cC, _⟩ := cnts s.pcs t _ .idle hpc i
+    simp only [holders, waiters, cancelling, e3] at hh2 ⊢
+    simp only [holders, waiters, cancelling] at hfree
+    simp [PC.isWait, PC.isCC] at cW cC
+    omega
+  have hent2 := (C15_entry_absent_iff_unreferenced r2 i).2 hfree2
+  obtain ⟨s3, hs3, hp3⟩ := C15_relock_immediate_per_contract r2 t i hp2 hfree2
+  exact ⟨s1, s2, hs1, hs2, hent2, hp2, s3, hs3, hp3⟩
+
 /-! ### non-vacuity: concrete schedules (each is a path of the system, so `Reachable`) -/
 
 theorem exec_reachable {n : Nat} {s s' : State} (h : Reachable n s) (acts : List Act)
@@ -826,5 +881,17 @@ example : (exec (init 3) (raceTwo ++ [.unlock 2])).map view = some ⟨[.idle, .i
   decide
 /-- one unlock, one admission -/
 example : admissions 0 (init 3) raceTwo = 1 ∧ releases 0 (init 3) raceTwo = 1 := by decide
+
+/-- every user path is exercised by the example: uncontended user, then relock -/
+example : (exec (init 2) [.lockFresh 0 0]).bind (fun s =>
+    match userAfterAcquire s 0 .merkleMismatch with
+    | .ok s' => some (view s')
+    | .error _ => none) = some ⟨[.idle, .idle], none, none⟩ := by decide
+/-- a user admitted by the hand-off releases to the next waiter -/
+example : (exec (init 3) [.lockFresh 0 0, .lockWait 1 0, .lockWait 2 0, .unlock 0, .recv 1]).bind (fun s =>
+    match userAfterAcquire s 1 .countMismatch with
+    | .ok s' => some (view s')
+    | .error _ => none) = some ⟨[.idle, .idle, .waiting 0 0], some (0, 1, 1), none⟩ := by decide
+example : lockUsers.length = 9 ∧ (lockUsers.filter (·.driven)).length = 4 := by decide
 
 end Hostd.Lock
